@@ -225,7 +225,8 @@ def run(ctx):
         "the cached _uneliminatable_annotations is identified with the recomputed set; this identification is checked on every real AST seen",
     ]
     ctx.cov["rule"] = ("cases = construction steps of C01 trees whose leaves and inner nodes carry Keep/Reloc/Elim/Avoid annotations (p=0.25 per node, "
-                       "sometimes two); non-trivial = some argument carries a non-eliminatable annotation and the built node differs from the plain node; "
+                       "sometimes two; annotation objects are shared between nodes and nodes are re-annotated: remove / replace / label-then-unlabel), "
+                       "directed cases with annotated neutral constants, a corpus of the Lean counter-witnesses; non-trivial = some argument carries a non-eliminatable annotation and the built node differs from the plain node; "
                        "distinct = (op, annotated argument trees)")
     ctx.prove("ClaripyProofs.Props.C07", THEOREMS)
     rng = ctx.rng
